@@ -35,6 +35,23 @@ def make_inputs(ctx, n_valid, n_mut):
     # stand-alone categories and ambiguity forms in every mode
     amb = ["void f(){ T * x; }", "void f(){ a(b); }", "void f(){ x = (T) - 1; }", "void f(){ x = sizeof(T); }", "void f(){ T(x); y = (a)*b; _Alignof(z); }",
            "typedef int T; void f(){ T * x; T(y); (T)-1; sizeof(T); }", "int a; void f(){ a * x; a(y); (a)-1; sizeof(a); }"]
+    # every ambiguity form with 0..3 extra pairs of parentheses around each part, the name undeclared / a typedef name / a function / a
+    # variable (the parser builds the second reading of an ambiguity out of the nodes of the first: seeded change C14-b nested the
+    # parenthesised declarators of 'x ( ( ( y ) ) ) ;' inside out)
+    def par(x, k):
+        return "( " * k + x + " )" * k
+    for decl in ("", "typedef int x ;", "int x ( int ) ;", "int x ;"):
+        for k in range(4):
+            for j in range(3):
+                body = "x ( %s ) ; x * %s ; y = ( %s ) - %s ; y = ( %s ) * %s ; y = sizeof ( %s ) ; y = ( %s ) ( %s ) ; y = _Alignof ( %s ) ;" % (
+                    par("y", k), par("z", k), par("x", j), par("w", k), par("x", j), par("w", k), par("x", k), par("x", j), par("w", k), par("x", k))
+                amb.append("%s void f ( ) { %s }" % (decl, body))
+                amb.append("%s void f ( ) { x ( %s ) ; }" % (decl, par("y", k)))
+                amb.append("%s void f ( ) { x * %s ; }" % (decl, par("y", k)))
+    from gen.ambiggen import AmbigGen
+    ag = AmbigGen(__import__("random").Random(1)).base_cases()
+    for c in ag[:: (9 if ctx.quick else 1)]:
+        amb.append(c["text"])
     for m in range(4):
         for t in amb:
             cases.append(("ambiguity", m, "a", t))
